@@ -18,7 +18,14 @@ def apply_scenarios(rng, n):
         pool.pop('order_tasks', None)
         ops = [gen.gen_apply_op(rng, pool['n_jobs']) for _ in range(rng.choice([1, 1, 2]))]
         if any(o.get('task_timeout') for o in ops) and pool['start_method'] == 'threading':
-            pool['start_method'] = 'fork'      # interrupting a sleeping thread is documented as impossible
+            if rng.random() < .5:
+                pool['start_method'] = 'fork'
+            else:
+                # a thread cannot be interrupted: the task is reported as timed out and its late result must be ignored
+                for o in ops:
+                    for k in list(o['dur']['map']):
+                        o['dur']['map'][k] = rng.choice([0.3, 0.5])
+                    o['cb_dur'] = rng.choice([0.5, 1.0])
         for op in ops[1:]:
             op.pop('join_first', None)
         if ops[0].get('join_first') and len(ops) > 1:
